@@ -21,6 +21,7 @@ CONSTANTS
   Record = TRUE
   History = FALSE
   Depth = 80
+  Edges = FALSE
   Deviations = {"OversizeWedge"}
 INVARIANTS EmitHist
 CHECK_DEADLOCK FALSE
